@@ -7,8 +7,8 @@ cp "/tmp/seed/$id/$tf" "$wt/$dd/$tf" || exit 2
 cd "$wt" || exit 2
 export GOFLAGS=-mod=mod GOPROXY=off
 a=$(go test -vet=off -count=1 -run "$pat" "./$dd/" 2>&1 | tail -1)
-git stash -q
+git apply -R "/tmp/seed/$id/patch.diff" || { echo "cannot revert patch"; exit 2; }
 b=$(go test -vet=off -count=1 -run "$pat" "./$dd/" 2>&1 | tail -1)
-git stash pop -q
+git apply "/tmp/seed/$id/patch.diff"
 git clean -fdq -- "$dd/$tf"
 echo "$id demo: with change: [$a]  without: [$b]"
